@@ -147,7 +147,7 @@ pub fn diff_checks(property: &'static str, feature: &str, tier: Tier, chunks: u6
 				name: format!("transcript_{}_{chunk:02}", feature.replace(',', "+")),
 				feature: feature.to_string(),
 				chunk,
-				count: tier.pick(400, 4000),
+				count: tier.pick(1500, 6000),
 				max_len: tier.pick(120, 300),
 			}) as Box<dyn SubCheck>
 		})
